@@ -694,6 +694,69 @@ pub fn c07_unflushed_answers_at_hangup(rec: &mut Rec, rng: &mut Rng, answered_be
     sim.w.teardown();
 }
 
+/// aimed (seed-independent): the kill switch fires while client A has `n_req` requests yielded and unanswered; the
+/// application sees the shutdown indication, resets the switch through its own handle and carries on. A then goes away
+/// and a newcomer reuses the descriptor number; the application answers A's old requests late. A shutdown report says
+/// nothing about requests that were handed out BEFORE it: A's connection is still owed those answers and is held, the
+/// newcomer never receives them.
+pub fn c07_late_answers_after_a_survived_shutdown(rec: &mut Rec, rng: &mut Rng, n_req: usize, polls_in_shutdown: usize) {
+    rec.case("routing-after-survived-shutdown");
+    rec.nontrivial();
+    let mut cfg = Cfg::base("C07");
+    cfg.max_clients = 4;
+    cfg.reconnect = true;
+    cfg.with_kill = true;
+    let mut sim = Sim::new(rec, cfg);
+    let a = sim.connect(rec);
+    let _b = sim.connect(rec);
+    sim.poll(rec);
+    sim.poll(rec);
+    for _ in 0..n_req {
+        sim.plan_request(rng, a);
+    }
+    sim.send_next(rec, rng, a);
+    while !sim.plans[a].outq.is_empty() {
+        sim.send_next(rec, rng, a);
+    }
+    for _ in 0..4 {
+        sim.poll(rec);
+    }
+    sim.w.signal_kill(rec);
+    for _ in 0..polls_in_shutdown {
+        sim.w.poll(rec);
+    }
+    sim.w.clear_kill(rec);
+    sim.poll(rec);
+    sim.w.close(rec, a);
+    sim.w.force_reserve = true;
+    sim.poll(rec);
+    sim.poll(rec);
+    let j = sim.connect(rec);
+    sim.poll(rec);
+    sim.send_next(rec, rng, j);
+    while !sim.plans[j].outq.is_empty() {
+        sim.send_next(rec, rng, j);
+    }
+    sim.poll(rec);
+    sim.poll(rec);
+    while let Some(idx) = sim.w.held.iter().position(|h| h.tag.starts_with(&format!("/c{}/", a))) {
+        sim.respond(rec, rng, idx);
+        sim.poll(rec);
+    }
+    while let Some(idx) = sim.w.held.iter().position(|h| h.client == Some(j)) {
+        sim.respond(rec, rng, idx);
+        sim.poll(rec);
+    }
+    for _ in 0..3 {
+        sim.poll(rec);
+    }
+    sim.w.client_read(rec, j);
+    sim.settle(rec, rng);
+    common_checks(rec, &mut sim, "C07");
+    check_yield_once(rec, &sim);
+    sim.w.teardown();
+}
+
 /// aimed (seed-independent): a large answer to A is only partly written (A is not reading yet) when answers to B and C
 /// are supplied and written; then A drains. Every byte each client receives belongs to ITS answer — nothing about a
 /// half-written response may live anywhere but in its own connection
@@ -760,6 +823,11 @@ pub fn c07_partial_write_while_others_are_answered(rec: &mut Rec, rng: &mut Rng,
 pub fn c07(rec: &mut Rec, rng: &mut Rng, thorough: bool) {
     for big in [300_000usize, 900_000] {
         c07_partial_write_while_others_are_answered(rec, rng, big);
+    }
+    for n_req in 1..=3 {
+        for polls in 1..=2 {
+            c07_late_answers_after_a_survived_shutdown(rec, rng, n_req, polls);
+        }
     }
     for answered_before in 0..=2 {
         for leave in 0..4 {
